@@ -1,6 +1,7 @@
 use crate::runner::{run_prop, Opts};
 
 pub mod c02;
+pub mod c03;
 pub mod c04;
 pub mod c05;
 pub mod c06;
@@ -9,6 +10,7 @@ pub mod c17;
 pub fn dispatch(id: &str, opts: &mut Opts) -> i32 {
     match id {
         "C02" => run_prop(&c02::C02, opts),
+        "C03" => run_prop(&c03::C03, opts),
         "C04" => run_prop(&c04::C04, opts),
         "C05" => run_prop(&c05::C05, opts),
         "C06" => run_prop(&c06::C06, opts),
